@@ -118,6 +118,12 @@ def wl_slim(ev):
         return {"e": e, "f": ev["f"], "s": ev["s"]}
     if e == "add":
         return {"e": e, "f": ev["f"], "new": ev["new"], "wl": ev.get("wlist", [])}
+    if e in ("tstart", "tend"):
+        return {"e": e}
+    if e == "tenq":
+        return {"e": e, "n": ev["n"], "fresh": bool(ev["fresh"])}
+    if e == "tpop":
+        return {"e": e, "n": ev["n"]}
     return {"e": e, "f": ev["f"], "s": ev["s"], "wl": ev.get("wlist", [])}
 
 
@@ -228,7 +234,7 @@ def run(tier, seed):
         cfgk = post.get("config") or {}
         kept = [slim(e) for e in evs if e["e"] in KEEP]
         cases.append({"name": name, "events": kept, "k": {"maxcs": int(cfgk.get("MAX_ROUND_CALL_SITE", 2)), "slack": SLACK}})
-        wcases.append({"name": name, "events": [wl_slim(e) for e in evs if e["e"] in ("enter", "peek", "add", "pop")]})
+        wcases.append({"name": name, "events": [wl_slim(e) for e in evs if e["e"] in ("enter", "peek", "add", "pop", "tstart", "tenq", "tpop")]})
         kinds = {}
         for e in evs:
             kinds[e["e"]] = kinds.get(e["e"], 0) + 1
